@@ -164,16 +164,18 @@ func (mt *multiSwarm) LocalAddrs() (ret []Addr) {
 }
 
 func (mt *multiSwarm) Close() error {
+	// close the hubs first: the receive loops may be blocked handing a message to them
+	// from inside a transport's callback, and a transport's Close may wait for its callbacks.
+	mt.tells.CloseWithError(p2p.ErrClosed)
+	if mt.onClose != nil {
+		mt.onClose()
+	}
 	var err error
 	for _, t := range mt.swarms {
 		if err2 := t.Close(); err2 != nil {
 			err = err2
 			logctx.Errorln(mt.ctx, "closing swarms", err)
 		}
-	}
-	mt.tells.CloseWithError(p2p.ErrClosed)
-	if mt.onClose != nil {
-		mt.onClose()
 	}
 	return err
 }
